@@ -6,6 +6,7 @@
 #include <fstream>
 #include <functional>
 #include <limits>
+#include <set>
 #include <sstream>
 
 #include <bxdecay0/bb_utils.h>
@@ -69,6 +70,37 @@ int main(int argc, char ** argv)
           fprintf(OUT, "P ok\n");
       }
     }
+  }
+  if (shard == 5) {
+    // every mode label maps to one mode and back - and nothing else maps to a mode: a label cut short (or extended) is not a label
+    const auto & modes = bxdecay0::dbd_modes();
+    std::set<std::string> labels;
+    for (auto & kv : modes) labels.insert(kv.second.unique_label);
+    int bad = 0;
+    std::string first;
+    for (auto & l : labels) {
+      std::vector<std::string> variants;
+      for (size_t k = 0; k < l.size(); k++) variants.push_back(l.substr(0, k));
+      variants.push_back(l + "x");
+      variants.push_back(" " + l);
+      variants.push_back(l + " ");
+      for (auto & v : variants) {
+        if (labels.count(v)) continue;
+        bxdecay0::dbd_mode_type m = bxdecay0::DBDMODE_UNDEF;
+        try {
+          m = bxdecay0::dbd_mode_from_label(v);
+        } catch (std::exception &) {
+        }
+        if (m != bxdecay0::DBDMODE_UNDEF) {
+          if (bad++ == 0) first = "'" + v + "' -> mode " + std::to_string((int)m);
+        }
+      }
+      if (bxdecay0::dbd_mode_label(bxdecay0::dbd_mode_from_label(l)) != l) {
+        if (bad++ == 0) first = "'" + l + "' does not map back";
+      }
+    }
+    if (bad) fprintf(OUT, "P %d strings that are not mode labels resolve to a mode, e.g. %s\n", bad, first.c_str());
+    else fprintf(OUT, "P ok\n");
   }
   if (shard == 4) {
     // an incomplete request is not a request: without a daughter level (never set, or not set again after reset()) the rules name no
